@@ -66,12 +66,13 @@ Example C15_nontrivial :
   (forall c, In c script -> c <> []) /\
   deliver 2 script = [[97]; [98; 98; 98; 98]; [13]; [99]]%N /\
   inv (snd (run_all 2 script)) /\
-  map o_count (fst (run_all 2 script)) = [2; 2; 4; 1; 2; 1].
+  map o_count (fst (run_all 2 script)) = [2; 2; 2; 2; 1; 2; 1].
 Proof.
   cbv zeta. split; [|split; [|split]].
   - intros c [<-|[<-|[<-|[]]]]; discriminate.
   - vm_compute. reflexivity.
-  - vm_compute. unfold wf, no_nl; cbn. repeat split; auto; try lia. intros [H|[]]. discriminate.
+  - vm_compute. split; [split; [lia|split; [reflexivity|left; reflexivity]]|].
+    split; [intros [H|[]]; discriminate|split; lia].
   - vm_compute. reflexivity.
 Qed.
 
